@@ -15,6 +15,7 @@ import DuneVerif.Proofs.C12R2
 import DuneVerif.Proofs.C12Named
 import DuneVerif.Proofs.C12Float
 import DuneVerif.Proofs.C12Src
+import DuneVerif.Proofs.C12FloatIff
 
 namespace DV.C12
 
@@ -478,8 +479,9 @@ example : parseRange (extractInt ⟨true, 32⟩) 2 "1 2 -".toList = none := by d
     format, which is then returned.  Proved here: the *syntax* direction for every binary format of the model
     (`binary64`, `binary32`) — success implies that shape, hence empty text, a lone sign or point, `1e`, `1e+`, two
     numbers, or any other trailing character is the RangeError; and the same for fixed-size ranges item by item.
-    Missing: the converse and the value (`roundToBin` is the model's correctly rounded conversion; it is compared bit
-    for bit with strtod/strtof and with std::from_chars on every run, no theorem is stated about it). -/
+    Round four: the converse for scalars is `float_accept_iff` below.  Missing: the same iff for ranges, and the value
+    (`roundToBin` is the model's correctly rounded conversion; it is compared bit for bit with strtod/strtof and with
+    std::from_chars on every run, no theorem is stated about it). -/
 theorem malformed_float_is_range_error_partial (b : BinFmt) (s : Str) (t : Tree) (key : Str) (hs : t.get? key = some s) :
     (∀ v, t.getAs (parseScalar (extractBin b)) key = .ok v →
       ∃ pre lit post, s = pre ++ lit ++ post ∧ AllSpace pre ∧ AllSpace post ∧ FloatLit lit) ∧
@@ -508,6 +510,41 @@ example : FloatLit "-1.5e3".toList :=
   ⟨"-".toList, "1".toList, ".5".toList, "e3".toList, by decide, Or.inr (Or.inr rfl), d '1' (by decide),
    Or.inr ⟨"5".toList, rfl, d '5' (by decide)⟩, Or.inl (by decide),
    Or.inr ⟨'e', [], "3".toList, rfl, Or.inl rfl, Or.inl rfl, by decide, d '3' (by decide)⟩⟩
+
+/-- **float_accept_iff** (round four).  `get<double>` / `get<float>` (any binary format `b` of the model) succeed
+    **iff** the stored text is blanks, one floating literal `[sign] digits* [. digits*] [e|E [sign] digits+]` (at least
+    one mantissa digit), blanks, and the literal's pieces evaluate to a finite number of the format (`evalB`: the exact
+    decimal value rounded to nearest, ties to even; overflow is a failure) — and then that number is returned.  Every
+    other text (empty, lone sign or point, `1e`, `1e+`, two numbers, trailing characters, overflow) is the RangeError.
+    Still missing for the value: a theorem that `roundToBin` is the nearest representable number (it is compared bit
+    for bit with strtod/strtof and std::from_chars on every run). -/
+theorem float_accept_iff (b : BinFmt) (s : Str) (t : Tree) (key : Str) (hs : t.get? key = some s) :
+    (∀ v, t.getAs (parseScalar (extractBin b)) key = .ok v ↔
+      ∃ pre lit post f, s = pre ++ lit ++ post ∧ AllSpace pre ∧ AllSpace post ∧ LexOf lit f ∧ f.evalB b = some v) ∧
+    ((¬ ∃ v pre lit post f, s = pre ++ lit ++ post ∧ AllSpace pre ∧ AllSpace post ∧ LexOf lit f ∧ f.evalB b = some v) →
+      t.getAs (parseScalar (extractBin b)) key = .error .range) := by
+  have hiff := parseBin_iff b s
+  constructor
+  · intro v
+    rw [← hiff v]
+    simp only [Tree.getAs, hs]
+    cases parseScalar (extractBin b) s with
+    | none => simp
+    | some w => simp
+  · intro hno
+    simp only [Tree.getAs, hs]
+    cases hp : parseScalar (extractBin b) s with
+    | none => rfl
+    | some w => exact absurd ⟨w, (hiff w).mp hp⟩ hno
+
+/-- `-1.5e3` with its pieces -/
+example : LexOf "-1.5e3".toList ⟨true, "1".toList, "5".toList, false, "3".toList⟩ :=
+  have d : ∀ ch : Char, isDig ch = true → AllDig [ch] := fun ch h c hc => by
+    simp only [List.mem_singleton] at hc; subst hc; exact h
+  ⟨"-".toList, ".5".toList, "e3".toList, by decide, Or.inr (Or.inr rfl), by decide, d '1' (by decide), d '5' (by decide),
+   Or.inr rfl, Or.inl (by decide), Or.inr ⟨'e', [], rfl, Or.inl rfl, Or.inl rfl, by decide, by decide, d '3' (by decide)⟩⟩
+example : (⟨true, "1".toList, "5".toList, false, "3".toList⟩ : FloatLex).evalB binary64 = some 0xC097700000000000 := by decide
+example : parseScalar (extractBin binary64) " -1.5e3 ".toList = some 0xC097700000000000 := by decide
 
 /-- variable-size sequences, bitsets, strings: the text is split into its maximal runs of non-blank characters
     (blank set `" \t\n\r"`; `WordsOf` is the declarative definition, independent of the splitting loop); a vector
